@@ -482,9 +482,14 @@ class FlatGen:
             self.decl("w9", dims=[2])
             e = ("eq", var("w9"), ("arr", [s1, ("bin", "*", num(2), s2)]))
         elif x == "ext:stepped-range":
-            self.decl("w9", dims=[5])
-            self.m["eqs"].append(("for", "i", num(1), num(2), num(5), [("eq", idx("w9", var("i")), ("bin", "*", var("i"), s1))]))
-            e = ("for", "i", num(2), num(2), num(4), [("eq", idx("w9", var("i")), s2)])
+            self.decl("w9", dims=[6])
+            # the stop value is on the grid of the steps or not (1:2:6 is 1, 3, 5)
+            lo1, st1, hi1 = r.choice([(1, 2, 5), (1, 2, 6), (1, 3, 6), (1, 3, 4), (1, 4, 6)])
+            lo2, st2, hi2 = r.choice([(2, 2, 4), (2, 2, 5), (2, 3, 6), (2, 3, 5), (2, 4, 6)])
+            self.m["eqs"].append(("for", "i", num(lo1), num(st1), num(hi1), [("eq", idx("w9", var("i")), ("bin", "*", var("i"), s1))]))
+            e = ("for", "i", num(lo2), num(st2), num(hi2), [("eq", idx("w9", var("i")), s2)])
+            if (hi1 - lo1) % st1 or (hi2 - lo2) % st2:
+                self.tags.add("stepped-range:stop-off-the-grid")
         elif x == "ext:der-of-parameter-expression":
             if not self.params:
                 self.decl("p1", prefixes=["parameter"], value=num(2.0))
